@@ -152,8 +152,11 @@ def ito_drift_correction(gfun, noise_type):
             for k in range(m):
                 gk = g[:, :, k]
                 for i in range(d):
-                    gi, = torch.autograd.grad(gk[:, i].sum(), yy, retain_graph=True)
-                    out[:, i] = out[:, i] + (gi * gk.detach()).sum(-1)
+                    if not gk.requires_grad:
+                        continue  # additive noise: no dependence on y
+                    gi, = torch.autograd.grad(gk[:, i].sum(), yy, retain_graph=True, allow_unused=True)
+                    if gi is not None:
+                        out[:, i] = out[:, i] + (gi * gk.detach()).sum(-1)
             return 0.5 * out.detach()
     return corr
 
